@@ -189,7 +189,7 @@ class CFBinding:
             "add_nan": lambda: mab.add_arm(np.nan),
             "add_inf": lambda: mab.add_arm(np.inf),
             "add_binarizer_non_ts": lambda: mab.add_arm(unknown[0], binarizers.flip),
-            "add_binarizer_not_callable": lambda: mab.add_arm(unknown[0], 5),
+            "add_binarizer_not_callable": lambda: mab.add_arm(unknown[0], "not a function"),
             "remove_unknown": lambda: mab.remove_arm(unknown[0]),
             "remove_none": lambda: mab.remove_arm(None),
             "ws_not_dict": lambda: mab.warm_start([1, 2], 0.5),
@@ -597,6 +597,23 @@ class Replay:
     def _eq(arm):
         return arm.item() if hasattr(arm, "item") else arm
 
+    def probe_inplace(self, mab):
+        """One long continuation executed on the object itself (which is consumed)."""
+        b = self.b
+        out = []
+        for labels in b.probe_labels(mab, True):
+            for label in labels:
+                if label["op"] == "cold_arms":
+                    out.append(list(mab.cold_arms))
+                    continue
+                if label["op"] == "add_arm" and b.lm[label["arm"]] in mab.arms:
+                    continue
+                if label["op"] == "remove_arm" and (b.lm[label["arm"]] not in mab.arms or len(mab.arms) <= 2):
+                    continue
+                outcome, value = b.call(mab, label, self.feat)
+                out.append(value if outcome == "ok" else "raised " + outcome)
+        return out
+
     def probe(self, mab, full=False):
         """Outputs of fixed continuations, each on its own deep copy: what a user can observe of the model.
         With full=True several continuations are run, each beginning with a different kind of call, so that a
@@ -671,12 +688,42 @@ class Replay:
         except Exception as error:  # noqa
             self.report("clone.exception", "copying raised %s: %s" % (type(error).__name__, error), tkey, label)
             return
+        # a second pair of clones is taken after one query row: generators then hold half-consumed words
+        try:
+            if obj._is_initial_fit and self.stats["clones"] % 3 == 0:
+                used1, used2 = copy.deepcopy(obj), copy.deepcopy(obj)
+                used1.predict(b.contexts(1))
+                used2.predict(b.contexts(1))
+                clones += [("deepcopy after a query", copy.deepcopy(used1), used1),
+                           ("pickle%d after a query" % protocol, pickle.loads(pickle.dumps(used2, protocol=protocol)), used2)]
+        except Exception as error:  # noqa
+            self.report("clone.exception", "copying after a query raised %s: %s" % (type(error).__name__, error), tkey, label)
+            return
+        for item in clones:
+            how, clone = item[0], item[1]
+            if len(item) > 2:
+                # the queried object is a throw-away: the original itself (not a copy of it) runs the continuation
+                original = item[2]
+                x, y = self.probe_inplace(original), self.probe_inplace(clone)
+                if not same(x, y):
+                    self.report("clone.outputs", "%s: the copy answers a continuation with %s, the original with %s"
+                                % (how, _fmt(y), _fmt(x)), tkey, label)
+                continue
+            self.compare_clone(how, clone, obj, tkey, label)
+
+    def compare_clone(self, how, clone, obj, tkey, label):
+        b = self.b
         ref = snapshot(obj, rng=True)
-        for how, clone in clones:
+        for how, clone in [(how, clone)]:
             snap = snapshot(clone, rng=True)
             if snap != ref:
-                self.report("clone.snapshot", "%s differs from the original: %s" % (how, "; ".join(diff(ref, snap))),
-                            tkey, label)
+                # a copy may legitimately drop internal caches: decide by what a user can observe
+                x, y = self.probe(obj, full=True), self.probe(clone, full=True)
+                if same(x, y):
+                    self.stats["clone_internal_only"] = self.stats.get("clone_internal_only", 0) + 1
+                else:
+                    self.report("clone.snapshot", "%s differs from the original (%s) and answers a continuation with %s "
+                                "instead of %s" % (how, "; ".join(diff(ref, snap)), _fmt(y), _fmt(x)), tkey, label)
                 continue
             if obj._is_initial_fit:
                 base = copy.deepcopy(obj)
